@@ -6,7 +6,7 @@ from ..pool import Pool
 from ..prng import Rng, derive
 
 BASE_W = {'new': 6, 'set': 5, 'setmany': 2, 'rel': 4, 'add': 3, 'remove': 3, 'clear': 1, 'assign': 2, 'create_in': 2,
-          'del': 3, 'set_none': 1, 'setpk': 1, 'flush': 2, 'commit': 1, 'rollback': 1,
+          'del': 3, 'set_none': 1, 'setpk': 1, 'flush': 2, 'commit': 1, 'rollback': 1, 'seq_in': 2, 'new_rawfk': 1,
           'r_attr': 2, 'r_pk': 1, 'r_get': 1, 'r_exists': 1, 'r_select': 1, 'r_count': 1, 'r_aggr': 1, 'r_coll': 2,
           'r_todict': 1}
 
@@ -17,7 +17,8 @@ FOCUS = {
     'delete': {'del': 8, 'new': 8, 'rel': 5, 'add': 4, 'create_in': 4},
     'keys': {'new': 9, 'set': 8, 'setmany': 4, 'del': 3, 'setpk': 2},
     'fail': {'new': 8, 'set': 6, 'setmany': 5, 'rel': 6, 'del': 6, 'set_none': 2, 'setpk': 2, 'assign': 3, 'remove': 4},
-    'rels': {'rel': 8, 'add': 6, 'remove': 5, 'assign': 4, 'clear': 2, 'create_in': 4, 'r_attr': 4, 'r_coll': 4},
+    'rels': {'rel': 8, 'add': 6, 'remove': 5, 'assign': 4, 'clear': 2, 'create_in': 4, 'r_attr': 4, 'r_coll': 4,
+             'seq_in': 6},
     'order': {'new': 10, 'rel': 6, 'del': 5, 'add': 3, 'create_in': 4, 'flush': 1},
 }
 
@@ -48,7 +49,7 @@ def gen_case(seed, i, tier, focus='default', loading=False, tag='seq'):
             ops.append([op, r.below(1000), r.below(1000), r.below(1000)])
         end = r.weighted([('exit', 7), ('raise', 1.5), ('rollback', 1.5)])
         sessions.append({'opts': r.weighted(SESSION_OPTS), 'ops': ops, 'end': end})
-    knobs = {'fetch': r.below(2)}
+    knobs = {'fetch': r.below(3)}
     if loading:
         if r.chance(0.5):
             knobs['lazy_attrs'] = True
